@@ -103,6 +103,45 @@ fn render_case(c: &SCase) -> (Program, Rendered) {
             prog.code.insert(start_idx + 1 + k, it);
         }
     }
+    // one plain-run program in four begins with a repeated string instruction (REP LODS, CX = 2..5: it is re-issued while
+    // stepping is still off), half of them followed at once by a POPF that sets the trap flag: the first prompt after a
+    // repetition must name the instruction that is about to run, not something left over from the repetition
+    if !c.interpreted && c.layout_choices.get(8).map(|x| x % 4 == 0).unwrap_or(false) {
+        use crate::asm::{ImmKind, Insn, Opd, R16, W};
+        let start_idx = prog.code.iter().position(|i| matches!(i, Item::Label(n) if n == "start")).unwrap_or(0);
+        let sel = c.layout_choices.get(9).copied().unwrap_or(0);
+        let mut ins = vec![
+            Item::Ins(Insn::new("push", vec![Opd::R16(R16::AX)])),
+            Item::Ins(Insn::new("push", vec![Opd::R16(R16::SI)])),
+            Item::Ins(Insn::new("push", vec![Opd::R16(R16::CX)])),
+            Item::Ins(Insn::new("mov", vec![Opd::R16(R16::CX), Opd::Imm(2 + (sel as u16 & 3), ImmKind::SW)])),
+            Item::Ins(Insn { prefix: Some("rep"), mn: "lods", ops: vec![Opd::Wd(if sel & 4 == 0 { W::B } else { W::W })] }),
+            Item::Ins(Insn::new("pop", vec![Opd::R16(R16::CX)])),
+            Item::Ins(Insn::new("pop", vec![Opd::R16(R16::SI)])),
+            Item::Ins(Insn::new("pop", vec![Opd::R16(R16::AX)])),
+        ];
+        if sel & 8 == 0 {
+            let at = if sel & 16 == 0 { 5 } else { 8 };
+            let tf_on = vec![
+                Item::Ins(Insn::new("mov", vec![Opd::R16(R16::AX), Opd::Imm(0xF102, ImmKind::SW)])),
+                Item::Ins(Insn::new("push", vec![Opd::R16(R16::AX)])),
+                Item::Ins(Insn::new("popf", vec![])),
+            ];
+            if at == 5 {
+                // directly behind the repetition (AX is restored by the pops that follow)
+                for (k, it) in tf_on.into_iter().enumerate() {
+                    ins.insert(5 + k, it);
+                }
+            } else {
+                ins.push(Item::Ins(Insn::new("push", vec![Opd::R16(R16::AX)])));
+                ins.extend(tf_on);
+                ins.push(Item::Ins(Insn::new("pop", vec![Opd::R16(R16::AX)])));
+            }
+        }
+        for (k, it) in ins.into_iter().enumerate() {
+            prog.code.insert(start_idx + 1 + k, it);
+        }
+    }
     let layout = Layout { choices: c.layout_choices.clone(), comments: c.comments, trailing_newline: true, pack_lines: false };
     let r = render_program(&prog, &layout);
     (prog, r)
@@ -175,6 +214,16 @@ fn eval(c: &SCase) -> CaseOutcome {
     }
     if prog.code.iter().any(|i| matches!(i, Item::Label(n) if n == "selfj")) && rr.events.iter().filter(|e| matches!(e, Ev::About(_))).count() >= 6 {
         classes.push("c20/self-targeting-jump-stepped".into());
+    }
+    {
+        use crate::asm::Insn;
+        // a repeated string instruction ran before the first prompt of the trap flag
+        let rep_at = flat.ops.iter().position(|o| matches!(o, FlatOp::Ins(Insn { prefix: Some("rep"), .. })));
+        if let (Some(r), Some(first)) = (rep_at, rr.prompts_before.first()) {
+            if rr.trace.contains(&r) && *first > r && rr.events.iter().any(|e| matches!(e, Ev::TrapNote)) {
+                classes.push("c20/trap-flag-set-after-a-repetition".into());
+            }
+        }
     }
     let tf_toggled = rr.events.iter().any(|e| matches!(e, Ev::TrapNote)) && rr.trace.len() > rr.prompts_before.len();
     let nt = (n_print >= 1 && n_next >= 3) || rr.stop == Stop::EofAtPrompt || tf_toggled;
@@ -344,6 +393,7 @@ pub fn run(ctx: &Ctx) {
     ctx.require_class("c20/-i", 100);
     ctx.require_class("c20/trap-flag-stepping", 30);
     ctx.require_class("c20/int3", 30);
+    ctx.require_class("c20/trap-flag-set-after-a-repetition", 10);
     ctx.require_class("c20/stop/EofAtPrompt", 20);
     ctx.require_class("c20/stop/Quit", 10);
     ctx.require_class("c20/stop/Halt", 50);
